@@ -119,7 +119,7 @@ func c02History(r *hx.Run, w *W, rnd *rand.Rand, hi int, epochs []c02Epoch) {
 			}
 		}()
 		if !hx.WaitUntil(15*time.Second, func() bool { return w.Farm.InflightKey(key) >= 1 }) {
-			r.Inconclusive("C02: fetcher did not reach the origin")
+			r.InconclusiveCase("C02: fetcher did not reach the origin")
 			close(g)
 			<-doneF
 			cancelF()
@@ -146,7 +146,7 @@ func c02History(r *hx.Run, w *W, rnd *rand.Rand, hi int, epochs []c02Epoch) {
 		if ep.Variant != "late" {
 			startWaiters()
 			if !hx.WaitUntil(15*time.Second, func() bool { return w.Pts.Count("get.registered")-baseReg >= int64(ep.Waiters) }) {
-				r.Inconclusive("C02: waiters did not register")
+				r.InconclusiveCase("C02: waiters did not register")
 			}
 		}
 		var aborted *hx.Result
